@@ -43,10 +43,15 @@ pub struct Perm {
 	pub umask: u32,
 }
 
+/// numbers, and those of the candidate names that exist in this image (man and games are users and groups with different numbers in Debian)
+fn known(names: &[&'static str], file: &str) -> Vec<&'static str> {
+	names.iter().cloned().filter(|n| n.bytes().all(|b| b.is_ascii_digit()) || lookup(file, n).is_some()).collect()
+}
+
 fn perm_strategy() -> impl Strategy<Value = Perm> {
 	let mode = proptest::option::weighted(0.7, prop_oneof![3 => 0u32..0o1000, 1 => proptest::sample::select(vec![0o600u32, 0o640, 0o644, 0o400, 0o440, 0o660, 0o666, 0o777, 0o000])]);
-	let user = || proptest::option::weighted(0.5, proptest::sample::select(vec!["daemon", "nobody", "www-data", "1", "65534", "33", "0", "12345"]).prop_map(|s| s.to_string()));
-	let group = || proptest::option::weighted(0.5, proptest::sample::select(vec!["daemon", "nogroup", "www-data", "1", "65534", "33", "0", "54321"]).prop_map(|s| s.to_string()));
+	let user = || proptest::option::weighted(0.5, proptest::sample::select(known(&["daemon", "nobody", "www-data", "man", "games", "mail", "1", "65534", "33", "0", "12345"], "/etc/passwd")).prop_map(|s| s.to_string()));
+	let group = || proptest::option::weighted(0.5, proptest::sample::select(known(&["daemon", "nogroup", "www-data", "man", "games", "mail", "1", "65534", "33", "0", "54321"], "/etc/group")).prop_map(|s| s.to_string()));
 	(mode.clone(), mode, user(), group(), user(), group(), proptest::sample::select(vec![0o000u32, 0o022, 0o027, 0o077, 0o002])).prop_map(|(cert_mode, pk_mode, cert_user, cert_group, pk_user, pk_group, umask)| Perm { cert_mode, pk_mode, cert_user, cert_group, pk_user, pk_group, umask })
 }
 
@@ -87,7 +92,10 @@ pub struct PrCase {
 
 fn pr_strategy() -> impl Strategy<Value = PrCase> {
 	let pre = proptest::collection::vec((proptest::sample::select(vec!["crt", "key"]), proptest::sample::select(vec![0u32, 1, 33, 4242]), proptest::sample::select(vec![0u32, 1, 33, 4343]), proptest::sample::select(vec![0o600u32, 0o640, 0o644, 0o400])), 0..3);
-	(perm_strategy(), proptest::collection::vec(proptest::sample::select(vec!["crt", "key", "account"]), 2..7), pre).prop_map(|(perm, w, pre)| {
+	// one write in ten is replaced by the directory vanishing under the daemon: what is written afterwards may fail, but a file that
+	// exists afterwards has the configured mode and owner all the same
+	let step = prop_oneof![9 => proptest::sample::select(vec!["crt", "key", "account"]), 1 => proptest::sample::select(vec!["rmdir-crt", "rmdir-account"])];
+	(perm_strategy(), proptest::collection::vec(step, 2..7), pre).prop_map(|(perm, w, pre)| {
 		let mut seen = std::collections::BTreeSet::new();
 		PrCase { perm, writes: w.into_iter().map(|s| s.to_string()).collect(), preexisting: pre.into_iter().filter(|p| seen.insert(p.0)).map(|(k, u, g, m)| (k.to_string(), u, g, m)).collect() }
 	})
@@ -135,6 +143,7 @@ fn exec_pr(case: &PrCase) -> Outcome {
 		.enumerate()
 		.map(|(i, k)| match k.as_str() {
 			"key" => json!({"kind": "key", "key_pem": key_pem}),
+			k if k.starts_with("rmdir") => json!({"kind": k}),
 			k => json!({"kind": k, "data": hex(format!("content {i}").as_bytes()), "account_file_name": acct_file}),
 		})
 		.collect();
@@ -160,17 +169,32 @@ fn exec_pr(case: &PrCase) -> Outcome {
 	bb::cleanup(&dir);
 	let mut rewrites = false;
 	let mut seen = std::collections::BTreeSet::new();
+	// directories removed so far: writes into them may fail, and files in them no longer pre-exist
+	let mut gone: std::collections::BTreeSet<&str> = Default::default();
+	let mut after_rmdir = 0;
 	for (i, (r, kind)) in reply["writes"].as_array().cloned().unwrap_or_default().iter().zip(case.writes.iter()).enumerate() {
-		if r["ok"].as_bool() != Some(true) {
+		if kind.starts_with("rmdir") {
+			let d = if kind == "rmdir-crt" { "crt" } else { "account" };
+			gone.insert(d);
+			seen.retain(|k: &String| if d == "crt" { k == "account" } else { k != "account" });
+			continue;
+		}
+		let in_gone = gone.contains(if kind == "account" { "account" } else { "crt" });
+		let st = &r["stat"];
+		if in_gone {
+			after_rmdir += 1;
+			if st["exists"].as_bool() != Some(true) {
+				continue;
+			}
+		} else if r["ok"].as_bool() != Some(true) {
 			return Outcome::fail("C13:write-error", format!("write {i} ({kind}) failed: {}; {:?}", r["err"], case.perm));
 		}
-		let st = &r["stat"];
 		let what = format!("{kind} file after write {i} ({})", if seen.contains(kind) { "rewrite" } else { "creation" });
 		if !seen.insert(kind.clone()) {
 			rewrites = true;
 		}
 		let (mode, uid, gid) = (st["mode"].as_u64().unwrap_or(0) as u32, st["uid"].as_u64().unwrap_or(0) as u32, st["gid"].as_u64().unwrap_or(0) as u32);
-		if let Some((_, pu, pg, pm)) = case.preexisting.iter().find(|p| p.0 == *kind) {
+		if let Some((_, pu, pg, pm)) = case.preexisting.iter().find(|p| p.0 == *kind).filter(|_| !in_gone) {
 			// a file that existed before: every write is a rewrite; the configured owner is applied, the mode is left alone
 			let (_, wu, wg) = expected(&case.perm, kind);
 			let (cu, cg) = if kind == "crt" { (&case.perm.cert_user, &case.perm.cert_group) } else { (&case.perm.pk_user, &case.perm.pk_group) };
@@ -191,7 +215,7 @@ fn exec_pr(case: &PrCase) -> Outcome {
 	}
 	let p = &case.perm;
 	let nontrivial = p.pk_mode.is_some() || p.pk_user.is_some() || p.pk_group.is_some();
-	Outcome::pass(nontrivial, vec![format!("umask={:03o}", p.umask), if rewrites { "rewrite".into() } else { "creation-only".into() }, format!("pk_mode_set={}", p.pk_mode.is_some()), format!("owner_set={}", p.pk_user.is_some() || p.cert_user.is_some()), format!("preexisting={}", case.preexisting.len())])
+	Outcome::pass(nontrivial, vec![format!("umask={:03o}", p.umask), if rewrites { "rewrite".into() } else { "creation-only".into() }, format!("pk_mode_set={}", p.pk_mode.is_some()), format!("owner_set={}", p.pk_user.is_some() || p.cert_user.is_some()), format!("preexisting={}", case.preexisting.len()), format!("writes-after-directory-vanished={}", after_rmdir.min(2))])
 }
 
 // ------------------------------------------------ black box
